@@ -163,6 +163,9 @@ def Req.setAddr (r : Req) (a : Option Addr) : Req := { r with addr := Addrs.ofOp
 /-- `set_addrs`: fewer than two ⇒ `None` / `One`, otherwise `Multi` -/
 def Req.setAddrs (r : Req) (l : List Addr) : Req :=
   { r with addr := if l.length < 2 then Addrs.ofOption l.head? else .multi l }
+/-- `take_addrs`: `mem::take(&mut self.addr)` — the addresses are handed out (in order) and the request is
+unresolved again -/
+def Req.takeAddrs (r : Req) : Req × List Addr := ({ r with addr := .none }, r.addr.toList)
 def Req.setLocal (r : Req) (ip : String) : Req := { r with localAddr := some ip }
 /-- `ConnectInfo::port()`: the request's own port wins over the `port` field -/
 def Req.effPort (r : Req) : Nat := r.host.port.getD r.port
